@@ -32,7 +32,7 @@ def run(tier, rep):
         rep.add(states=r.distinct, transitions=r.generated)
         mm = os.path.join(c.OUT, "cases", "C05-%s.mm.ndjson" % inst)
         dig = os.path.join(c.OUT, "cases", "C05-%s.digests" % inst)
-        nrandom = (300 if tier == "quick" else 5000) if inst == "names" else 0
+        nrandom = (600 if tier == "quick" else 8000) if inst == "names" else 0
         s = c.harness(["c05-repeat", "--cases", cases, "--reps", reps, "--threads", threads, "--stride", stride,
                        "--random", nrandom, "--seed", c.seed(), "--mismatches", mm, "--digests", dig + ".0"], timeout=3000)
         for m in c.read_ndjson(mm):
@@ -58,6 +58,21 @@ def run(tier, rep):
                 os.remove(f)
             except OSError:
                 pass
+    # renderer side: trees enumerated by TLC over pools in which the identifier disambiguation has work to do (colliding
+    # names, literal name_N / name_attr / text_content forms, gaps in the suffix sequence), each rendered repeatedly
+    from . import render_common as rc
+    for pool in ("suffixgap", "suffixlit", "fields"):
+        r, tcases = rc.run_pool("C05", pool, 5 if pool == "suffixgap" else 4, 0, ("add", "text"), invariants=["Unique", "EmitCase"], timeout=300)
+        rep.add(states=r.distinct, transitions=r.generated)
+        total, kept = rc.thin(tcases, 4000 if tier == "quick" else 200000)
+        mm = os.path.join(c.OUT, "cases", "C05-trees.mm.ndjson")
+        s = c.harness(["api-replay", "--cases", tcases, "--repeat", 12 if tier == "quick" else 60, "--mismatches", mm], timeout=3000)
+        for m in c.read_ndjson(mm):
+            if m.get("kind") == "repeat-tree":
+                rep.violation(m, "a tree built by %s renders differently on repetition: %s" % (
+                    [rc.unatom(o.get("name", [])) for o in m["ops"]], first_diff(m["first"], m["other"])))
+        rep.add(evaluations=kept * (12 if tier == "quick" else 60), traces_validated_against_impl=kept, trees_rendered_repeatedly=kept)
+        os.remove(tcases)
     rep.add(rule=RULE, exhaustive=True, repetitions=reps, threads=threads, processes=procs)
     rep.assumptions += ["every HashMap::new() gets a fresh RandomState, so repetitions range over iteration orders; address / seed "
                         "independence is observed by repetition, not proved",
